@@ -363,3 +363,58 @@ func HarnessC05Long() {
 	vndReach("long")
 	c05CheckSet(&s, c05Model(orig), "long")
 }
+
+// C05.encode: the default encoding agrees with the contents: sorted key=value
+// pairs joined by commas, with '=', ',' and the escape character '\' in string
+// keys and values each preceded by one '\' (the documented rule, which makes the
+// encoding unique)
+func c05Escape(s string) string {
+	out := ""
+	for i := 0; i < len(s); i++ {
+		if s[i] == '=' || s[i] == ',' || s[i] == '\\' {
+			out += "\\"
+		}
+		out += s[i : i+1]
+	}
+	return out
+}
+
+func HarnessC05Encode() {
+	n := 1 + vndChoice(2)
+	var kvs []KeyValue
+	var keys, vals []string
+	for i := 0; i < n; i++ {
+		k := vndString(vndParam("KN", 2))
+		v := vndString(vndParam("VN", 2))
+		for j := 0; j < len(k); j++ {
+			vndAssume(k[j] < 0x80)
+		}
+		for j := 0; j < len(v); j++ {
+			vndAssume(v[j] < 0x80)
+		}
+		if i == 1 {
+			vndAssume(k != keys[0])
+		}
+		kvs = append(kvs, String(k, v))
+		keys, vals = append(keys, k), append(vals, v)
+	}
+	set := NewSet(kvs...)
+	got := set.Encoded(DefaultEncoder())
+	// reference: pairs in key order
+	if n == 2 && keys[1] < keys[0] {
+		keys[0], keys[1] = keys[1], keys[0]
+		vals[0], vals[1] = vals[1], vals[0]
+	}
+	want := ""
+	for i := 0; i < n; i++ {
+		if i > 0 {
+			want += ","
+		}
+		want += c05Escape(keys[i]) + "=" + c05Escape(vals[i])
+	}
+	vndReach("encoded")
+	vndAssert(len(got) == len(want), "encoding-agrees-with-the-contents")
+	if len(got) == len(want) {
+		vndAssert(got == want, "encoding-agrees-with-the-contents")
+	}
+}
